@@ -125,6 +125,7 @@ func (f *fibStrategyTreeEntry) pruneIfEmptyEnc() {
 // FindNextHops returns the longest-prefix matching nexthop(s) matching the specified name.
 
 func (f *FibStrategyTree) FindNextHopsEnc(name enc.Name) []*FibNextHopEntry {
+	verifGate("fib")
 	f.fibStrategyRWMutex.RLock()
 	defer f.fibStrategyRWMutex.RUnlock()
 
@@ -147,6 +148,7 @@ func (f *FibStrategyTree) FindNextHopsEnc(name enc.Name) []*FibNextHopEntry {
 
 // FindStrategy returns the longest-prefix matching strategy choice entry for the specified name.
 func (f *FibStrategyTree) FindStrategyEnc(name enc.Name) enc.Name {
+	verifGate("fib")
 	f.fibStrategyRWMutex.RLock()
 	defer f.fibStrategyRWMutex.RUnlock()
 
@@ -169,6 +171,7 @@ func (f *FibStrategyTree) FindStrategyEnc(name enc.Name) enc.Name {
 // InsertNextHop adds or updates a nexthop entry for the specified prefix.
 
 func (f *FibStrategyTree) InsertNextHopEnc(name enc.Name, nexthop uint64, cost uint64) {
+	verifGate("fib")
 	f.fibStrategyRWMutex.Lock()
 	defer f.fibStrategyRWMutex.Unlock()
 	f.insertNextHopLocked(name, nexthop, cost)
@@ -196,6 +199,7 @@ func (f *FibStrategyTree) insertNextHopLocked(name enc.Name, nexthop uint64, cos
 
 // ClearNextHops clears all nexthops for the specified prefix.
 func (f *FibStrategyTree) ClearNextHopsEnc(name enc.Name) {
+	verifGate("fib")
 	f.fibStrategyRWMutex.Lock()
 	defer f.fibStrategyRWMutex.Unlock()
 	f.clearNextHopsLocked(name)
@@ -203,6 +207,7 @@ func (f *FibStrategyTree) ClearNextHopsEnc(name enc.Name) {
 
 // ReplaceNextHopsEnc replaces the nexthops of the specified prefix under one write lock.
 func (f *FibStrategyTree) ReplaceNextHopsEnc(name enc.Name, nexthops []FibNextHopEntry) {
+	verifGate("fib")
 	f.fibStrategyRWMutex.Lock()
 	defer f.fibStrategyRWMutex.Unlock()
 	f.clearNextHopsLocked(name)
@@ -226,6 +231,7 @@ func (f *FibStrategyTree) clearNextHopsLocked(name enc.Name) {
 // RemoveNextHop removes the specified nexthop entry from the specified prefix.
 
 func (f *FibStrategyTree) RemoveNextHopEnc(name enc.Name, nexthop uint64) {
+	verifGate("fib")
 	f.fibStrategyRWMutex.Lock()
 	defer f.fibStrategyRWMutex.Unlock()
 	entry := f.root.findExactMatchEntryEnc(name)
@@ -248,6 +254,7 @@ func (f *FibStrategyTree) RemoveNextHopEnc(name enc.Name, nexthop uint64) {
 
 // GetAllFIBEntries returns all nexthop entries in the FIB.
 func (f *FibStrategyTree) GetAllFIBEntries() []FibStrategyEntry {
+	verifGate("fib")
 	f.fibStrategyRWMutex.RLock()
 	defer f.fibStrategyRWMutex.RUnlock()
 
@@ -273,6 +280,7 @@ func (f *FibStrategyTree) GetAllFIBEntries() []FibStrategyEntry {
 
 // SetStrategy sets the strategy for the specified prefix.
 func (f *FibStrategyTree) SetStrategyEnc(name enc.Name, strategy enc.Name) {
+	verifGate("fib")
 	f.fibStrategyRWMutex.Lock()
 	defer f.fibStrategyRWMutex.Unlock()
 
@@ -288,6 +296,7 @@ func (f *FibStrategyTree) SetStrategyEnc(name enc.Name, strategy enc.Name) {
 
 // UnsetStrategy unsets the strategy for the specified prefix.
 func (f *FibStrategyTree) UnSetStrategyEnc(name enc.Name) {
+	verifGate("fib")
 	f.fibStrategyRWMutex.Lock()
 	defer f.fibStrategyRWMutex.Unlock()
 	entry := f.root.findExactMatchEntryEnc(name)
@@ -299,6 +308,7 @@ func (f *FibStrategyTree) UnSetStrategyEnc(name enc.Name) {
 
 // GetAllForwardingStrategies returns all strategy choice entries in the Strategy Table.
 func (f *FibStrategyTree) GetAllForwardingStrategies() []FibStrategyEntry {
+	verifGate("fib")
 	f.fibStrategyRWMutex.RLock()
 	defer f.fibStrategyRWMutex.RUnlock()
 
